@@ -211,6 +211,11 @@ def shapes_of(rng, mcv, is_jumbo, args):
     out.append(("jumbo-nonul", jumbo(fixed + b"AAAAAAA")))
     out.append(("jumbo-ok", jumbo(fixed + b"label\0")))
     out.append(("jumbo-long", jumbo(fixed + b"L" * 3000 + b"\0")))
+    if "str" in args:
+        # texts that end just past ovnidump's 1024-byte formatting buffer (a stray write a few bytes beyond it
+        # lands in the sanitizer's red zone; one thousands of bytes beyond would not)
+        for n in range(960, 1120, 6):
+            out.append(("jumbo-edge", jumbo(fixed + b"E" * n + b"\0")))
     return out
 
 
@@ -405,8 +410,8 @@ def run(chk):
             r = rng.fork("D" + mcv)
             shapes = shapes_of(r, mcv, isj, args)
             for sn, (scls, evb) in enumerate(shapes):
-                if (n + sn) % stride != 0:
-                    continue
+                if (n + sn) % stride != 0 and "str" not in args:
+                    continue      # (events with a string argument always get every shape)
                 meta = trace.thread_meta(1000, 100, "n0", require=req_all, cpus=[(0, 0), (1, 1)])
                 meta["ovni"]["mark"] = json.loads(json.dumps(L.MARKS))
                 obs = HDR + trace.ev_bytes("OHx", 1000, struct.pack("<iiI", 0, 1000, 0)) + evb
